@@ -716,6 +716,11 @@ func (c *c09Client) scheme() string {
 	return "udp"
 }
 
+type c09Refresh struct {
+	client int
+	call   int
+}
+
 type c09CtlWorld struct {
 	ctrl    *DnsController
 	mu      sync.Mutex
@@ -740,11 +745,12 @@ func (w *c09CtlWorld) routeOfReq(req *dnsmessage.Msg) string {
 
 var c09Dsts = []string{"8.8.8.8:53", "1.1.1.1:53", "9.9.9.9:53"}
 
-func newC09CtlWorld(st *VStream, stat *VStats, routing *componentdns.Dns) *c09CtlWorld {
+func newC09CtlWorld(st *VStream, stat *VStats, routing *componentdns.Dns, optimistic bool) *c09CtlWorld {
 	w := &c09CtlWorld{st: st, stat: stat}
 	log := c09Quiet()
 	ctrl, err := NewDnsController(routing, &DnsControllerOption{
 		Log: log, LifecycleContext: context.Background(),
+		OptimisticCache: optimistic, OptimisticCacheTtl: 0, MaxCacheSize: 1000,
 		CacheAccessCallback: func(*DnsCache) error { return nil },
 		CacheRemoveCallback: func(*DnsCache) error { return nil },
 		NewCache: func(fqdn string, answers, ns, extra []dnsmessage.RR, deadline, originalDeadline time.Time) (*DnsCache, error) {
@@ -952,7 +958,11 @@ func c09GenAtt(r *VRand, c *c09Client, stat *VStats, pool []int) c09Att {
 func c09RunCtlScenario(r *VRand, st *VStream, stat *VStats, routing *componentdns.Dns) {
 	old := dnsForwarderFactory
 	defer func() { dnsForwarderFactory = old }()
-	w := newC09CtlWorld(st, stat, routing)
+	optimistic := r.Chance(0.35)
+	if optimistic {
+		stat.Inc("ctl.scenario.optimistic-cache")
+	}
+	w := newC09CtlWorld(st, stat, routing, optimistic)
 	defer w.ctrl.Close()
 	w.ctrl.concurrencyLimiter = make(chan struct{}, 64)
 	dnsForwarderFactory = func(up *componentdns.Upstream, da dialArgument, _ *logrus.Logger) (DnsForwarder, error) {
@@ -960,6 +970,9 @@ func c09RunCtlScenario(r *VRand, st *VStream, stat *VStats, routing *componentdn
 	}
 	// clients: few names / types / ids so that coalescing and collisions are the norm
 	nc := 2 + r.Intn(6)
+	if optimistic {
+		nc = 4 + r.Intn(7)
+	}
 	names := []int{1 + r.Intn(3), 4 + r.Intn(3)}
 	ids := []int{r.Intn(65536), r.Intn(65536)}
 	routes := []string{"a", "a", "u", "t", "b", "b", "r"}
@@ -969,7 +982,7 @@ func c09RunCtlScenario(r *VRand, st *VStream, stat *VStats, routing *componentdn
 	for i := 0; i < nc; i++ {
 		c := &c09Client{id: ids[r.Intn(2)], n: names[r.Intn(2)], sp: r.Intn(8), qtype: []int{1, 1, 1, 28}[r.Intn(4)], route: route, dst: 0,
 			w: &c09Writer{}, done: make(chan error, 1)}
-		if r.Chance(0.6) {
+		if r.Chance(0.6) || optimistic && r.Chance(0.6) {
 			c.n = names[0] // mostly the same question
 			c.qtype = 1
 		}
@@ -991,6 +1004,8 @@ func c09RunCtlScenario(r *VRand, st *VStream, stat *VStats, routing *componentdn
 		done   bool
 	}
 	var flights []*flight
+	var refreshes []*c09Refresh
+	ageNext := false
 	arrived := 0
 	emit := func(op, prefix string, c *c09Client, pc string) {
 		st.Emit(op, fmt.Sprintf("%spc=%s out=%s calls=%d cache=%s", prefix, pc, w.outcome(c), len(flights), w.cacheStr()))
@@ -1040,20 +1055,71 @@ func c09RunCtlScenario(r *VRand, st *VStream, stat *VStats, routing *componentdn
 			w.start(c)
 			synctest.Wait()
 			w.poll()
-			pc := "waiting"
-			switch {
-			case c.fin:
-				pc = "done"
+			if c.fin {
 				c.rep = true
 				stat.Inc("ctl.arrive.answered-at-once")
-			case w.ncalls() > before:
+				if w.ncalls() > before {
+					// a stale entry was served: backgroundRefresh is now blocked in its upstream exchange
+					refreshes = append(refreshes, &c09Refresh{client: idx, call: before})
+					stat.Inc("ctl.arrive.stale-served")
+				}
+				emit(fmt.Sprintf("C arrive %d", idx), "", c, "done")
+				continue
+			}
+			// cache miss: the first lookup, then sf.Do (the real code runs through both)
+			emit(fmt.Sprintf("C arrive %d", idx), "", c, "missed")
+			pc := "waiting"
+			if w.ncalls() > before {
 				flights = append(flights, &flight{leader: c, first: before})
 				pc = fmt.Sprintf("leading:%d", len(flights)-1)
 				stat.Inc("ctl.arrive.leader")
-			default:
+			} else {
 				stat.Inc("ctl.arrive.follower")
 			}
-			emit(fmt.Sprintf("C arrive %d", idx), "", c, pc)
+			emit(fmt.Sprintf("C join %d", idx), "", c, pc)
+		case optimistic && arrived > 0 && arrived < nc && w.cacheStr() != "-" && (ageNext || r.Chance(0.3)):
+			ageNext = false
+			// every cached answer becomes stale (2 h of virtual time); not an event of the model
+			time.Sleep(2 * time.Hour)
+			synctest.Wait()
+			stat.Inc("ctl.op.age")
+		case len(refreshes) > 0 && r.Chance(0.7):
+			rf := refreshes[0]
+			refreshes = refreshes[1:]
+			c := w.clients[rf.client]
+			pool := []int{names[0], names[1], 9}
+			a1 := c09GenAtt(r, c, stat, pool)
+			a2 := c09GenAtt(r, c, stat, pool)
+			w.mu.Lock()
+			call := w.calls[rf.call]
+			w.mu.Unlock()
+			nBefore := w.ncalls()
+			call.release <- a1
+			if a1.timeout {
+				time.Sleep(consts.DefaultDialTimeout + time.Second)
+			}
+			synctest.Wait()
+			if w.ncalls() > nBefore {
+				w.mu.Lock()
+				call2 := w.calls[len(w.calls)-1]
+				w.mu.Unlock()
+				call2.release <- a2
+				if a2.timeout {
+					time.Sleep(consts.DefaultDialTimeout + time.Second)
+				}
+				synctest.Wait()
+			}
+			// a refresh that did not produce a fresh entry makes the deferred clean-up drop the stale one
+			want := fmt.Sprintf("%d.%d.%d>", c09NameTok(c.n, c.route), c.qtype, c.scope())
+			ev := "1"
+			for _, e := range strings.Split(w.cacheStr(), ",") {
+				if strings.HasPrefix(e, want) {
+					ev = "0"
+				}
+			}
+			stat.Inc("ctl.op.refresh.evicted=" + ev)
+			st.Emit(fmt.Sprintf("C refresh %d %s %s %s %s", rf.client, c.scheme(), a1.tok(), a2.tok(), ev),
+				fmt.Sprintf("pc=none out=- calls=%d cache=%s", len(flights), w.cacheStr()))
 		case len(running) > 0 && r.Chance(0.1):
 			// drop a cache entry (janitor / LRU / explicit removal)
 			c := w.clients[r.Intn(arrived)]
@@ -1079,6 +1145,12 @@ func c09RunCtlScenario(r *VRand, st *VStream, stat *VStats, routing *componentdn
 			pool := []int{names[0], names[1], 9}
 			a1 := c09GenAtt(r, f.leader, stat, pool)
 			a2 := c09GenAtt(r, f.leader, stat, pool)
+			if optimistic && fi == 0 && r.Chance(0.8) {
+				// a well-behaved first answer, so that there is something to go stale
+				l := f.leader
+				a1 = c09Att{id: l.id, q: fmt.Sprintf("%d.%d.%d", c09NameTok(l.n, l.route), l.sp, l.qtype), resp: true, ans: 1 + r.Intn(900)}
+				ageNext = true
+			}
 			w.mu.Lock()
 			call := w.calls[f.first]
 			w.mu.Unlock()
